@@ -10,6 +10,7 @@
   previous connection has been processed.
 -/
 import Proofs.SysEventsC12
+import Proofs.SysEventsC12b
 namespace Hap.Sys
 
 /-- **C12_recipients** (safety, every history, every next step). Whenever a step writes an EVENT
@@ -121,6 +122,24 @@ theorem C12_quiescent_after_drain (c : Cfg) (h12 : c.fix12 = true) (h13 : c.fix1
   simp only [e] at this
   exact this (C12_drain c s) p x hs hn
 
+/-- **C12_no_stale_after_resubscription** (with design/fixes/C12-resubscribe.patch, `fixResub`).
+    After every history respecting the reuse hypothesis, a registered connection has nothing queued
+    for a characteristic its address is not subscribed to: the entry queued before an
+    unsubscription is dropped with it and nothing is queued while unsubscribed. Hence at the moment a
+    connection (re-)subscribes to `x` its queue holds no entry for `x`, and every entry for `x` it
+    is sent afterwards stems from a change made after that subscription began (and, by last-value
+    coalescing and `C12_quiescent`, ends with the current value). -/
+theorem C12_no_stale_after_resubscription (c : Cfg) (hr : c.fixResub = true) (h13 : c.fix13 = true)
+    (tr : List Ev) (hre : ReuseOK c (init c) tr) (p : ObjId) (x : Cid) :
+    let s := (run c (init c) tr).1
+    registered s p → ¬ subscribed s x (s.obj p).addr → aget (s.obj p).queue x = none := by
+  intro s h1 h2
+  have := no_run c hr h13 tr _ (noOrphan_init c) (good_init c) hre
+  apply this p x h1
+  cases hm : memT (s.topics x) (s.obj p).addr with
+  | false => rfl
+  | true => exact absurd hm h2
+
 /-! ### the code before the repair -/
 
 def exCfg12 : Cfg := { imm := fun x => x == 2 || x == 3, nul := fun x => x == 2 }
@@ -142,6 +161,25 @@ theorem C12_legacy_stale_counterexample :
     let r := run legacyCfg12 (init legacyCfg12) staleTrace
     r.2 = [Out.resp 0 0 204 Body.none, Out.resp 0 0 204 Body.none, Out.event 0 0 [(0, 10)]] ∧
     ¬ pendingFlush r.1 0 ∧ (r.1.obj 0).since 0 = true ∧ (r.1.obj 0).learned 0 = some 10 ∧ r.1.value 0 = some 20 := by
+  decide
+
+/-- unsubscribe and re-subscribe inside one coalescing window around a second change -/
+def resubTrace : List Ev :=
+  [Ev.connect 0, Ev.verify 0, Ev.data 0 (Req.put 0 (some true) none false), Ev.appSet 0 10,
+   Ev.data 0 (Req.put 0 (some false) none false), Ev.appSet 0 20,
+   Ev.data 0 (Req.put 0 (some true) none false), Ev.timerFire 0]
+
+def legacyResubCfg : Cfg := { exCfg12 with fixResub := false }
+
+/-- Without `discard_event` the value queued before the unsubscription (10) is delivered after the
+    re-subscription although the value is 20 by then; with it nothing is sent. Replayed on the real
+    code by the harness (signature `C12:stale-event-after-resubscription`). -/
+theorem C12_legacy_resubscribe_counterexample :
+    (run legacyResubCfg (init legacyResubCfg) resubTrace).2
+      = [Out.resp 0 0 204 Body.none, Out.resp 0 0 204 Body.none, Out.resp 0 0 204 Body.none, Out.event 0 0 [(0, 10)]] ∧
+    (run legacyResubCfg (init legacyResubCfg) resubTrace).1.value 0 = some 20 ∧
+    (run exCfg12 (init exCfg12) resubTrace).2
+      = [Out.resp 0 0 204 Body.none, Out.resp 0 0 204 Body.none, Out.resp 0 0 204 Body.none] := by
   decide
 
 /-! ### non-vacuity -/
